@@ -26,9 +26,29 @@ pub struct Case {
     pub add_user_props: u8,
     /// None = borrowed reply(); Some(k) = reply_owned with capacity pair k
     pub owned: Option<usize>,
+    /// 0 = letters, '/' and a few multi-byte characters; 1 = every printable ASCII character in turn (incl. '+', '#',
+    /// '$', space) - a response topic is whatever the requester chose
+    #[serde(default)]
+    pub topic_kind: u8,
 }
 
 const CAPS: [(usize, usize); 7] = [(1, 1), (2, 1), (8, 4), (127, 8), (128, 128), (300, 0), (65535, 65535)];
+
+fn topic_of_kind(n: usize, kind: u8) -> String {
+    if kind == 0 {
+        return topic_of(n);
+    }
+    // '+', '#', '$' and the space come early so that short topics have them too
+    let lead = "+#$ r/";
+    let mut s = String::new();
+    let mut i = 0usize;
+    while s.len() < n {
+        let c = if i < lead.len() { lead.as_bytes()[i] as char } else { (0x21 + ((i - lead.len()) % 94) as u8) as char };
+        s.push(c);
+        i += 1;
+    }
+    s
+}
 
 fn topic_of(n: usize) -> String {
     // mixes one-, two- and three-byte characters at the front when there is room
@@ -89,7 +109,7 @@ macro_rules! owned_reply {
 pub fn eval(c: &Case) -> CaseOut {
     guarded("C20", || {
         let mut viol = Vec::new();
-        let topic = c.topic_len.map(topic_of);
+        let topic = c.topic_len.map(|n| topic_of_kind(n, c.topic_kind));
         let corr = c.corr_len.map(corr_of);
         let up = |k: &str| Prop { id: 0x26, val: PVal::Pair(k.as_bytes().to_vec(), b"v".to_vec()) };
         let rt = topic.as_ref().map(|t| Prop { id: 0x08, val: PVal::Str(t.as_bytes().to_vec()) });
@@ -189,6 +209,11 @@ pub fn eval(c: &Case) -> CaseOut {
         };
         let class;
         match (&topic, result) {
+            (Some(t), Owned::Err(e)) if e == "request-not-delivered" && c.topic_kind == 1 && t.contains(['+', '#']) => {
+                // MQTT-3.3.2-14 forbids wildcard characters in a Response Topic: a client that refuses the whole
+                // request as malformed is within its rights (C08 decides what is accepted); nothing to reply to
+                class = 8;
+            }
             (_, Owned::Err(e)) if e == "request-not-delivered" => {
                 class = 7;
                 flag(&mut viol, "request-not-delivered", kind, format!("the valid inbound request was not delivered to the application ({:?})", c));
@@ -222,9 +247,38 @@ pub fn eval(c: &Case) -> CaseOut {
                 if &t != want_topic || cdata != corr {
                     flag(&mut viol, "target-differs", kind, format!("helper reports topic {} bytes / correlation {:?} bytes, request had {} / {:?}", t.len(), cdata.as_ref().map(|d| d.len()), want_topic.len(), corr.as_ref().map(|d| d.len())));
                 }
+                // MQTT forbids wildcard characters in topic names and so does the reference decoder; where the requester
+                // chose such a response topic the reply must go there all the same (the property is about addressing):
+                // the topic is read by hand and the wildcard characters are masked for the decoder
+                let mut raw_topic: Option<Vec<u8>> = None;
+                let mut written = written;
+                if c.topic_kind == 1 && written.len() > 4 && written[0] >> 4 == 3 {
+                    let mut off = 1;
+                    while off < 5 && written[off] & 0x80 != 0 {
+                        off += 1;
+                    }
+                    off += 1;
+                    if off + 2 <= written.len() {
+                        let tl = ((written[off] as usize) << 8) | written[off + 1] as usize;
+                        if off + 2 + tl <= written.len() {
+                            raw_topic = Some(written[off + 2..off + 2 + tl].to_vec());
+                            for b in &mut written[off + 2..off + 2 + tl] {
+                                if *b == b'+' || *b == b'#' {
+                                    *b = b'w';
+                                }
+                            }
+                        }
+                    }
+                }
+                let masked = |t: &[u8]| -> Vec<u8> { t.iter().map(|b| if c.topic_kind == 1 && (*b == b'+' || *b == b'#') { b'w' } else { *b }).collect() };
+                if let Some(rt) = &raw_topic {
+                    if rt != want_topic.as_bytes() {
+                        flag(&mut viol, "reply-topic-differs", kind, format!("reply goes to {:?}, response topic is {:?}", String::from_utf8_lossy(rt), want_topic));
+                    }
+                }
                 match mr::decode_client(&written) {
                     Ok((CPacket::Publish(pp), n)) if n == written.len() => {
-                        if pp.topic != want_topic.as_bytes() {
+                        if pp.topic != masked(want_topic.as_bytes()) {
                             flag(&mut viol, "reply-topic-differs", kind, format!("reply goes to a {}-byte topic, response topic has {} bytes", pp.topic.len(), want_topic.len()));
                         }
                         let got_cd: Vec<&Prop> = pp.props.iter().filter(|p| p.id == 0x09).collect();
@@ -263,7 +317,7 @@ fn cases(tier: Tier) -> Vec<Case> {
                         if tier == Tier::Quick && in_qos == 1 && (t.unwrap_or(0) > 200 || cl.unwrap_or(0) > 200) {
                             continue;
                         }
-                        v.push(Case { topic_len: *t, corr_len: *cl, position, in_qos, add_user_props, owned: None });
+                        v.push(Case { topic_len: *t, corr_len: *cl, position, in_qos, add_user_props, owned: None, topic_kind: 0 });
                     }
                 }
             }
@@ -277,7 +331,7 @@ fn cases(tier: Tier) -> Vec<Case> {
             for cl in [None, Some(0usize), Some(3), Some(255)] {
                 for position in 0..4u8 {
                     for owned in [None, Some(6usize)] {
-                        v.push(Case { topic_len: Some(t), corr_len: cl, position, in_qos: (t % 2) as u8, add_user_props: (t % 3) as u8, owned });
+                        v.push(Case { topic_len: Some(t), corr_len: cl, position, in_qos: (t % 2) as u8, add_user_props: (t % 3) as u8, owned, topic_kind: 0 });
                     }
                 }
             }
@@ -287,8 +341,18 @@ fn cases(tier: Tier) -> Vec<Case> {
             for t in [None, Some(1usize), Some(9), Some(130)] {
                 for position in 0..4u8 {
                     for owned in [None, Some(6usize)] {
-                        v.push(Case { topic_len: t, corr_len: Some(cl), position, in_qos: (cl % 2) as u8, add_user_props: (cl % 3) as u8, owned });
+                        v.push(Case { topic_len: t, corr_len: Some(cl), position, in_qos: (cl % 2) as u8, add_user_props: (cl % 3) as u8, owned, topic_kind: 0 });
                     }
+                }
+            }
+        }
+    }
+    // response topics made of every printable ASCII character (wildcard characters, '$', space ...)
+    for t in [1usize, 2, 3, 6, 20, 100, 128] {
+        for cl in [None, Some(0usize), Some(5)] {
+            for position in 0..4u8 {
+                for owned in [None, Some(4usize), Some(6)] {
+                    v.push(Case { topic_len: Some(t), corr_len: cl, position, in_qos: (t % 2) as u8, add_user_props: (t % 3) as u8, owned, topic_kind: 1 });
                 }
             }
         }
@@ -306,7 +370,7 @@ fn cases(tier: Tier) -> Vec<Case> {
             for cl in &cls {
                 for add_user_props in [0u8, 1] {
                     for position in [0u8, 2] {
-                        v.push(Case { topic_len: *t, corr_len: *cl, position, in_qos: 1, add_user_props, owned: Some(k) });
+                        v.push(Case { topic_len: *t, corr_len: *cl, position, in_qos: 1, add_user_props, owned: Some(k), topic_kind: 0 });
                     }
                 }
             }
